@@ -22,102 +22,20 @@
     consume       a consumer that takes items one by one and looks ahead before some of them
     runOps        a schedule of calls (driver command `c02.step`, compared with the real object)
 
-  `feedG` is the text of `Include.feedI` with the tail of the loop body as a parameter
-  (`Props/C02.lean: line_step_shared_with_batch_model` proves `feedI = feedG (feedTailI ..)` by `rfl`,
-  so that the two models cannot drift apart).
+  The loop body on one physical line is `Include.feedG` (`feedFront`, `feedBack`), shared with the batch
+  model: `Include.feedI` is `feedG` with `feedTailI` plugged in, `readOn` plugs in `tailRaw`.
 -/
 import FordModel.Reader
 import FordModel.Include
 namespace Ford.PassBack
 open Ford Include
 
-/-- the body of the `while not done` loop on one physical line (text of `Include.feedI`), with what
-    happens after the if/else on the stripped line (`tail`) and the value of a `continue` (`skip`) as
-    parameters -/
-def feedG {β : Type} (skip : β) (tail : RS → Str → Except IErr (RS × β)) (m : Marks) (s : RS) (line0 : Str) :
-    Except IErr (RS × β) :=
-  let inQuote := unterminated s.linebuffer
-  if firstStripped line0 == some '#' then .ok (s, skip) else
-  let r1 : Except IErr RS :=
-    match matchDocmark m.pre line0 inQuote with
-    | some i =>
-      let s' := { s with readingPredoc := true, readingAlt := 0, readingPredocAlt := 0,
-                         docbuffer := s.docbuffer ++ [substMark m.doc m.pre.length (line0.drop i)] }
-      if !(isBlank (line0.take i)) then .error (.reader .predocInline) else .ok s'
-    | none => .ok s
-  match r1 with
-  | .error e => .error e
-  | .ok s =>
-  let r2 : Except IErr RS :=
-    match matchDocmark m.preAlt line0 inQuote with
-    | some i =>
-      let s' := { s with readingPredocAlt := 1, readingAlt := 0, readingPredoc := false,
-                         docbuffer := s.docbuffer ++ [substMark m.doc m.preAlt.length (line0.drop i)] }
-      if !(isBlank (line0.take i)) then .error (.reader .predocAltInline) else .ok s'
-    | none => .ok s
-  match r2 with
-  | .error e => .error e
-  | .ok s =>
-  let r3 : Except IErr RS :=
-    match matchDocmark m.alt line0 inQuote with
-    | some i =>
-      let s' := { s with readingAlt := 1, readingPredoc := false, readingPredocAlt := 0,
-                         docbuffer := s.docbuffer ++ [substMark m.doc m.alt.length (line0.drop i)] }
-      if !(isBlank (line0.take i)) then .error (.reader .altInline) else .ok s'
-    | none => .ok s
-  match r3 with
-  | .error e => .error e
-  | .ok s =>
-  let (s, line) : RS × Str :=
-    match matchDocmark m.doc line0 inQuote with
-    | some i => ({ s with readingAlt := 0, readingPredocAlt := 0,
-                          docbuffer := s.docbuffer ++ [line0.drop i] }, line0.take i)
-    | none => (s, line0)
-  let fc := firstStripped line
-  let s := if fc.isNone || fc != some '!' then { s with readingAlt := 0 } else s
-  let s := if fc.isSome && fc != some '!' then { s with readingPredocAlt := 0 } else s
-  let (s, line) : RS × Str :=
-    match matchCom line inQuote with
-    | some i =>
-      let s := if (s.readingPredocAlt > 1 || s.readingAlt > 1) && isBlank (line.take i)
-               then { s with docbuffer := s.docbuffer ++ [('!' :: m.doc) ++ (line.drop i).drop 1] }
-               else s
-      (s, line.take i)
-    | none => (s, line)
-  let line := strip line
-  match line with
-  | [] =>
-    let s := if s.prevdoc && s.docbuffer.isEmpty then { s with docbuffer := ['!' :: m.doc] } else s
-    tail s []
-  | ch :: rest =>
-    let s := { s with readingPredoc := false, readingPredocAlt := 0, readingAlt := 0 }
-    if ch == '&' then
-      if s.continued then
-        if isBlank rest then .ok (s, skip)
-        else
-          let (s, line) := if rest.getLast? == some '&' then ({ s with continued := true }, rest.dropLast)
-                           else ({ s with continued := false }, rest)
-          tail s line
-      else if rest.isEmpty then .ok (s, skip)
-      else .error (.reader .ampStart)
-    else
-      let s := { s with linebuffer := strip s.linebuffer ++ [' '] }
-      let line := ch :: rest
-      let (s, line) := if line.getLast? == some '&' then ({ s with continued := true }, line.dropLast)
-                       else ({ s with continued := false }, line)
-      tail s line
-
-/-- the end of a loop iteration as `__next__` itself has it: counters, `linebuffer += line`, `done`;
-    when the logical line is complete the `;`-split statements are handed out (`some pending`) and
-    nothing else is touched: the pops belong to `next` -/
+/-- the end of a loop iteration as `__next__` itself has it (`Include.tailState`, `tailDone`,
+    `splitPending`): when the logical line is complete the `;`-split statements are handed out
+    (`some pending`) and nothing else is touched: the pops belong to `next` -/
 def tailRaw (s : RS) (line : Str) : Except IErr (RS × Option (List Str)) :=
-  let s := if s.readingAlt > 0 then { s with readingAlt := s.readingAlt + 1 } else s
-  let s := if s.readingPredocAlt > 0 then { s with readingPredocAlt := s.readingPredocAlt + 1 } else s
-  let s := { s with linebuffer := s.linebuffer ++ line }
-  let done := (!s.docbuffer.isEmpty || !s.linebuffer.isEmpty) && !s.continued
-              && !s.readingPredoc && s.readingPredocAlt == 0
-  if !done then .ok (s, none) else
-    .ok (s, some (((quoteSplit ';' s.linebuffer).filter (fun f => !f.isEmpty)).map strip))
+  let s := tailState s line
+  if !tailDone s then .ok (s, none) else .ok (s, some (splitPending s))
 
 /-- what survives between two calls of `__next__` -/
 structure St where
@@ -204,6 +122,22 @@ def next (c : Cfg) (resolve : Str → Res) (m : Marks) (order : List Slot) (st :
   | .error e => .error e
   | .ok (some r) => .ok (some r)
   | .ok none => readOn c resolve m (resetLocals st.rs) st.lines
+
+/-- the reader iterated to StopIteration: `Yields .. st out` = successive calls of `__next__` from `st`
+    return the items `out`, then StopIteration -/
+inductive Yields (c : Cfg) (resolve : Str → Res) (m : Marks) (order : List Slot) : St → List Str → Prop
+  | stop {st : St} : next c resolve m order st = .ok none → Yields c resolve m order st []
+  | item {st st' : St} {x : Str} {out : List Str} :
+      next c resolve m order st = .ok (some (x, st')) → Yields c resolve m order st' out →
+      Yields c resolve m order st (x :: out)
+
+/-- `r` is the outcome of a call, `items` what this call and all later ones return -/
+def After (c : Cfg) (resolve : Str → Res) (m : Marks) (order : List Slot)
+    (r : Except IErr (Option (Str × St))) (items : List Str) : Prop :=
+  match r with
+  | .error _ => False
+  | .ok none => items = []
+  | .ok (some (x, st')) => ∃ out, items = x :: out ∧ Yields c resolve m order st' out
 
 /-- `pass_back(line)`: at the head of the queue (`self.pending.insert(0, line)`) or behind it -/
 def passBack (front : Bool) (st : St) (line : Str) : St :=
